@@ -59,12 +59,16 @@ type bucketObjectIterator struct {
 }
 
 func (b *bucketObjectIterator) Seek(key gofakes3.VersionID) bool {
-	if b.iter.Seek(key) {
+	if b.iter != nil && b.iter.Seek(key) {
 		return true
 	}
 
 	b.iter = nil
 	if b.data != nil && b.data.versionID == key {
+		// The marker is the current version, which is the last entry of the
+		// object: iteration resumes after it, so nothing is left here.
+		b.data = nil
+		b.done = true
 		return true
 	}
 
